@@ -376,7 +376,7 @@ def run_plain_charset(case, out):
     """PlainTextCodec with a term outside latin-1 (recorded finding; the generator keeps the main sub-check away
     from such terms so that the rest of the codec is still explored)"""
     from whoosh.codec.plaintext import PlainTextCodec
-    schema = fields.Schema(f=fields.TEXT)
+    schema = fields.Schema(f=fields.TEXT(vector=True))
     ix = RamStorage().create_index(schema)
     w = ix.writer(codec=PlainTextCodec())
     try:
